@@ -5,7 +5,7 @@ import numpy as np, pandas as pd
 from core import Result
 import proto, gen, implutil
 
-THEOREMS = ['C16_relabel', 'C16_edit', 'C16_frame', 'C16_value', 'C16_grow', 'C16_connected']
+THEOREMS = ['C16_relabel', 'C16_edit', 'C16_frame', 'C16_value', 'C16_grow', 'C16_connected', 'C16_routing']
 RULE = ("cycle tables produced by compute_features(burst_method='cycles') on generated signals (bursty / noisy families, both centrings) with a grid of thresholds, then "
         "recompute_edges with the same thresholds, with every *_threshold lowered by r in {0.1, 0.3}, with one threshold set to 0, through the function and through "
         "Bycycle.recompute_edges(reduction); plus synthetic tables with prescribed burst layouts (bursts at distance 1, at the table ends); judge: input table untouched, only "
